@@ -255,10 +255,22 @@ class SimPopen:
             self.state = "killed"
             SimPopen.world.stats["sim:children-killed"] += 1
 
-    terminate = kill
+    def terminate(self):
+        """SIGTERM: a program may handle or ignore it (shell wrappers, tools that finish their work package first);
+        only kill() cannot be refused."""
+        if self.rec.script.get("ignores_term"):
+            SimPopen.world.stats["sim:sigterm-ignored"] += 1
+            self.poll()
+            return
+        self.kill()
 
     def send_signal(self, sig):
-        self.kill()
+        import signal as _signal
+
+        if sig == _signal.SIGKILL:
+            self.kill()
+        else:
+            self.terminate()
 
 
 class SubprocessShim:
